@@ -678,4 +678,7 @@ def run(prog, rep, tier, snap):
     r06_4(prog, rep)
     rep.rule("R06.5", "reload filter agrees with the rename target; owner keyword read back", 5)
     r06_5(prog, rep)
+    from ..rules import valist
+    rep.rule("R06.6", "the buffered writer never formats from a consumed va_list (records larger than the write buffer)", 1)
+    valist.r_valist(prog, rep, "R06.6", only=("fdprintf",))
 READY = True
